@@ -135,6 +135,10 @@ TOther      == (Is("PollCheck") \/ Is("Healthy") \/ Is("Backoff") \/ Is("ListFai
 TVolume     == (Is("RelayVolume") \/ Is("FaultVolume")) /\ Stutter
                /\ E.wrong = 0 /\ E.unanswered = 0 /\ E.other = 0 /\ E.agent_alive /\ E.proxy_alive
                /\ Step
+\* after a series of refused websocket-shim calls a healthy shim exchange (open, data, poll, close on a new session)
+\* is served: isolation holds for the requests the agent answers itself, too
+TShimHealthy == Is("ShimHealthy") /\ Stutter /\ E.ok
+               /\ Step
 \* end of a scenario: every client that was not hit by a fault has its own OK response, and
 \* both processes are still running (no action of Relay ever stops the agent)
 TFinal      == Is("Final") /\ Stutter
@@ -144,7 +148,7 @@ TFinal      == Is("Final") /\ Stutter
 TNext == TReset \/ TClientSend \/ TRegister \/ TListStart \/ TRecv \/ TListReply \/ TListOK \/ TDedup
          \/ TSpawn \/ TFetch \/ TWForward \/ TBackend \/ TBackendReply \/ TBackendFault \/ TPostLookup \/ TPostRelookup
          \/ TClientResp \/ TClientRecv \/ TClientCancel \/ TClientGaveUp \/ TFault \/ TWServed
-         \/ TWClosed \/ TPostFault \/ TFetchFault \/ TOther \/ TFinal \/ TVolume
+         \/ TWClosed \/ TPostFault \/ TFetchFault \/ TOther \/ TFinal \/ TVolume \/ TShimHealthy
 
 TSpec == TInit /\ [][TNext]_<<rvars, l>>
 
